@@ -44,6 +44,7 @@ var substRules = map[string][]subst{
 		{"os", "File", "simos", "File"},
 	},
 	"exit":   {{"os", "Exit", "simos", "Exit"}},
+	"fatal":  {{"log", "Fatal", "simos", "Fatal"}, {"log", "Fatalf", "simos", "Fatalf"}, {"log", "Fatalln", "simos", "Fatal"}},
 	"stdin":  {{"os", "Stdin", "simos", "Stdin"}},
 	"signal": {{"signal", "Notify", "simsignal", "Notify"}},
 	"clock":  {{"time", "Now", "simclock", "Now"}}, // only applied to files named in -clockfiles
@@ -58,7 +59,7 @@ var simImports = map[string]string{
 }
 
 var importPathOf = map[string]string{
-	"net": "net", "tls": "crypto/tls", "os": "os", "signal": "os/signal", "time": "time",
+	"net": "net", "tls": "crypto/tls", "os": "os", "signal": "os/signal", "time": "time", "log": "log",
 }
 
 func fatal(format string, a ...interface{}) {
